@@ -439,19 +439,20 @@ func exitMethod() {
 // TODO: add inner creator examples
 func (s *JavaFullListener) EnterInnerCreator(ctx *parser.InnerCreatorContext) {
 	if ctx.Identifier() != nil {
-		currentClz = ctx.Identifier().GetText()
+		// the enclosing name is kept: it is the current class again once the creator ends
 		classStringQueue = append(classStringQueue, currentClz)
+		currentClz = ctx.Identifier().GetText()
 	}
 }
 
 // TODO: add inner creator examples
 func (s *JavaFullListener) ExitInnerCreator(ctx *parser.InnerCreatorContext) {
-	if classStringQueue == nil || len(classStringQueue) <= 1 {
+	if ctx.Identifier() == nil || len(classStringQueue) < 1 {
 		return
 	}
 
-	classStringQueue = classStringQueue[0 : len(classStringQueue)-1]
 	currentClz = classStringQueue[len(classStringQueue)-1]
+	classStringQueue = classStringQueue[0 : len(classStringQueue)-1]
 }
 
 func getMethodMapName(method core_domain.CodeFunction) string {
